@@ -16,10 +16,11 @@ Section ValueInd.
   Hypothesis HIn : P (VIO IOInput). Hypothesis HPr : forall s, P (VIO (IOPrint s)).
   Hypothesis HRet : forall v, P v -> P (VIO (IOReturn v)).
   Hypothesis HBind : forall sp m f h l, Forall P l -> P (VIO (IOBind sp m f h l)).
+  Hypothesis HComplex : forall r i, P (VComplex r i).
   Fixpoint value_nest_ind (v:value) : P v :=
     match v with
     | VInt n => HInt n | VFloat f => HFloat f | VBool b => HBool b | VStr s => HStr s | VBytes s => HBytes s
-    | VFun f => HFun f | VNil => HNil | VThunk t => HThunk t
+    | VFun f => HFun f | VNil => HNil | VThunk t => HThunk t | VComplex r i => HComplex r i
     | VList l => HList l ((fix go (l:list value) : Forall P l := match l with [] => Forall_nil _ | x :: r => Forall_cons _ (value_nest_ind x) (go r) end) l)
     | VErr s l => HErr s l ((fix go (l:list value) : Forall P l := match l with [] => Forall_nil _ | x :: r => Forall_cons _ (value_nest_ind x) (go r) end) l)
     | VDict d => HDict d ((fix go (d:list (value*value)) : Forall (fun kv => P (fst kv) /\ P (snd kv)) d :=
@@ -189,10 +190,21 @@ Proof.
   - subst k'. split; auto. assert (P : 0 < 2 ^ k) by (apply Z.pow_pos_nonneg; lia). nia.
   - exfalso. eapply (G m' m k' k); eauto.
 Qed.
+(* on integers and reals the imaginary parts are both zero: equality is equality of the real keys *)
+Lemma num_eq_real a b : is_real a = true -> is_real b = true -> num_eq a b = nkey_eqb (nkey a) (nkey b).
+Proof. destruct a; try discriminate; destruct b; try discriminate; intros _ _; unfold num_eq; cbn [ckey fst snd nkey_eqb]; apply andb_true_r. Qed.
+Lemma num_eq_sym a b : num_eq a b = num_eq b a.
+Proof. unfold num_eq. rewrite (nkey_eqb_sym (fst (ckey a))), (nkey_eqb_sym (snd (ckey a))). reflexivity. Qed.
+Lemma num_eq_trans a b c : num_eq a b = true -> num_eq b c = true -> num_eq a c = true.
+Proof.
+  unfold num_eq. intros H1 H2. apply andb_true_iff in H1. apply andb_true_iff in H2. destruct H1 as [A1 A2], H2 as [B1 B2].
+  apply andb_true_iff. split; eapply nkey_eqb_trans; eauto.
+Qed.
 Theorem int_eq_exact x y : num_eq (VInt x) (VInt y) = true <-> x = y.
 Proof.
-  split; [|intros ->; unfold num_eq; apply nkey_eqb_refl; destruct y; simpl; auto; destruct (pstrip p); reflexivity].
-  unfold num_eq. intros H. apply nkey_eqb_eq in H.
+  rewrite num_eq_real by reflexivity.
+  split; [|intros ->; apply nkey_eqb_refl; destruct y; simpl; auto; destruct (pstrip p); reflexivity].
+  intros H. apply nkey_eqb_eq in H.
   destruct x as [|p|p], y as [|q|q]; cbn [nkey] in H; try reflexivity;
     try (destruct (pstrip p); discriminate H); try (destruct (pstrip q); discriminate H);
     try (destruct (pstrip p), (pstrip q); discriminate H).
@@ -220,11 +232,11 @@ Qed.
 Lemma fun_eq_refl f : fun_eq f f = true.
 Proof. destruct f; simpl; auto using Pos.eqb_refl. destruct (list_eq_dec Z.eq_dec name name); auto. Qed.
 
-Definition numeric (v:value) : bool := match v with VInt _ | VFloat _ => true | _ => false end.
+Definition numeric (v:value) : bool := match v with VInt _ | VFloat _ | VComplex _ _ => true | _ => false end.
 Lemma num_eq_nonnum_l a b : numeric a = false -> num_eq a b = false.
 Proof. destruct a; try discriminate; reflexivity. Qed.
 Lemma num_eq_nonnum_r a b : numeric b = false -> num_eq a b = false.
-Proof. intros H. unfold num_eq. rewrite nkey_eqb_sym. destruct b; try discriminate; reflexivity. Qed.
+Proof. intros H. rewrite num_eq_sym. apply num_eq_nonnum_l. exact H. Qed.
 Lemma veqb_num a b : numeric a = true -> veqb a b = num_eq a b.
 Proof. destruct a; try discriminate; reflexivity. Qed.
 Lemma veqb_num_r a b : numeric b = true -> veqb a b = num_eq a b.
@@ -236,9 +248,9 @@ Ltac num_case b :=
   [rewrite (veqb_num b) by exact Nb; rewrite num_eq_nonnum_r by reflexivity; destruct b; try discriminate Nb; reflexivity|].
 Theorem veqb_sym : forall a b, veqb a b = veqb b a.
 Proof.
-  induction a as [n|f|bb|s|s|f| |t|l IH|sp l IH|d IH| |s|v IH|sp m f h l IH] using value_nest_ind; intros b.
-  - rewrite veqb_num, veqb_num_r by reflexivity. unfold num_eq. apply nkey_eqb_sym.
-  - rewrite veqb_num, veqb_num_r by reflexivity. unfold num_eq. apply nkey_eqb_sym.
+  induction a as [n|f|bb|s|s|f| |t|l IH|sp l IH|d IH| |s|v IH|sp m f h l IH|cr ci] using value_nest_ind; intros b.
+  - rewrite veqb_num, veqb_num_r by reflexivity. apply num_eq_sym.
+  - rewrite veqb_num, veqb_num_r by reflexivity. apply num_eq_sym.
   - num_case b. destruct b; try discriminate Nb; try reflexivity. cbn [veqb]. apply beqb_sym.
   - num_case b. destruct b; try discriminate Nb; try reflexivity. cbn [veqb]. apply codes_eq_sym.
   - num_case b. destruct b; try discriminate Nb; try reflexivity. cbn [veqb]. apply codes_eq_sym.
@@ -248,19 +260,20 @@ Proof.
   - num_case b. destruct b; try discriminate Nb; try reflexivity. cbn [veqb]. apply (list_eq_sym (fun p q => veqb p q)). exact IH.
   - num_case b. destruct b; try discriminate Nb; try reflexivity. cbn [veqb]. apply (list_eq_sym (fun p q => veqb p q)). exact IH.
   - num_case b. destruct b; try discriminate Nb; try reflexivity. cbn [veqb]. apply (dict_eq_sym (fun p q => veqb p q)). exact IH.
-  - num_case b. destruct b as [| | | | | | | |i| | |]; try discriminate Nb; try reflexivity; try (destruct i; reflexivity).
-  - num_case b. destruct b as [| | | | | | | |i| | |]; try discriminate Nb; try reflexivity. destruct i; try reflexivity; cbn [veqb]; apply codes_eq_sym.
-  - num_case b. destruct b as [| | | | | | | |i| | |]; try discriminate Nb; try reflexivity. destruct i; try reflexivity; cbn [veqb]; apply IH.
-  - num_case b. destruct b as [| | | | | | | |i| | |]; try discriminate Nb; try reflexivity. destruct i; try reflexivity; cbn [veqb]; apply (list_eq_sym (fun p q => veqb p q)); exact IH.
+  - num_case b. destruct b as [| | | | | | | |i| | | |]; try discriminate Nb; try reflexivity; try (destruct i; reflexivity).
+  - num_case b. destruct b as [| | | | | | | |i| | | |]; try discriminate Nb; try reflexivity. destruct i; try reflexivity; cbn [veqb]; apply codes_eq_sym.
+  - num_case b. destruct b as [| | | | | | | |i| | | |]; try discriminate Nb; try reflexivity. destruct i; try reflexivity; cbn [veqb]; apply IH.
+  - num_case b. destruct b as [| | | | | | | |i| | | |]; try discriminate Nb; try reflexivity. destruct i; try reflexivity; cbn [veqb]; apply (list_eq_sym (fun p q => veqb p q)); exact IH.
+  - rewrite veqb_num, veqb_num_r by reflexivity. apply num_eq_sym.
 Qed.
 
 Theorem veqb_trans : forall a b c, veqb a b = true -> veqb b c = true -> veqb a c = true.
 Proof.
-  induction a as [n|f|bb|s|s|f| |t|l IH|sp l IH|d IH| |s|v IH|sp m f h l IH] using value_nest_ind; intros b c H1 H2.
+  induction a as [n|f|bb|s|s|f| |t|l IH|sp l IH|d IH| |s|v IH|sp m f h l IH|cr ci] using value_nest_ind; intros b c H1 H2.
   - rewrite veqb_num in * by reflexivity. destruct (numeric b) eqn:Nb; [|rewrite num_eq_nonnum_r in H1 by auto; discriminate].
-    rewrite veqb_num in H2 by auto. unfold num_eq in *. eapply nkey_eqb_trans; eauto.
+    rewrite veqb_num in H2 by auto. eapply num_eq_trans; eauto.
   - rewrite veqb_num in * by reflexivity. destruct (numeric b) eqn:Nb; [|rewrite num_eq_nonnum_r in H1 by auto; discriminate].
-    rewrite veqb_num in H2 by auto. unfold num_eq in *. eapply nkey_eqb_trans; eauto.
+    rewrite veqb_num in H2 by auto. eapply num_eq_trans; eauto.
   - destruct b; try discriminate H1. destruct c; try discriminate H2. cbn [veqb] in *. apply eqb_prop in H1. apply eqb_prop in H2. subst. apply Bool.eqb_reflx.
   - destruct b; try discriminate H1. destruct c; try discriminate H2. cbn [veqb] in *. apply codes_eq_true in H1. apply codes_eq_true in H2. apply codes_eq_true. congruence.
   - destruct b; try discriminate H1. destruct c; try discriminate H2. cbn [veqb] in *. apply codes_eq_true in H1. apply codes_eq_true in H2. apply codes_eq_true. congruence.
@@ -270,21 +283,24 @@ Proof.
   - destruct b; try discriminate H1. destruct c; try discriminate H2. cbn [veqb] in *. eapply (list_eq_trans (fun p q => veqb p q)); eauto.
   - destruct b; try discriminate H1. destruct c; try discriminate H2. cbn [veqb] in *. eapply (list_eq_trans (fun p q => veqb p q)); eauto.
   - destruct b; try discriminate H1. destruct c; try discriminate H2. cbn [veqb] in *. eapply (dict_eq_trans (fun p q => veqb p q)); eauto.
-  - destruct b as [| | | | | | | |i| | |]; try discriminate H1. destruct i; try discriminate H1. exact H2.
-  - destruct b as [| | | | | | | |i| | |]; try discriminate H1. destruct i; try discriminate H1.
-    destruct c as [| | | | | | | |j| | |]; try discriminate H2. destruct j; try discriminate H2. cbn [veqb] in *.
+  - destruct b as [| | | | | | | |i| | | |]; try discriminate H1. destruct i; try discriminate H1. exact H2.
+  - destruct b as [| | | | | | | |i| | | |]; try discriminate H1. destruct i; try discriminate H1.
+    destruct c as [| | | | | | | |j| | | |]; try discriminate H2. destruct j; try discriminate H2. cbn [veqb] in *.
     apply codes_eq_true in H1. apply codes_eq_true in H2. apply codes_eq_true. congruence.
-  - destruct b as [| | | | | | | |i| | |]; try discriminate H1. destruct i; try discriminate H1.
-    destruct c as [| | | | | | | |j| | |]; try discriminate H2. destruct j; try discriminate H2. cbn [veqb] in *. eapply IH; eauto.
-  - destruct b as [| | | | | | | |i| | |]; try discriminate H1. destruct i; try discriminate H1.
-    destruct c as [| | | | | | | |j| | |]; try discriminate H2. destruct j; try discriminate H2. cbn [veqb] in *.
+  - destruct b as [| | | | | | | |i| | | |]; try discriminate H1. destruct i; try discriminate H1.
+    destruct c as [| | | | | | | |j| | | |]; try discriminate H2. destruct j; try discriminate H2. cbn [veqb] in *. eapply IH; eauto.
+  - destruct b as [| | | | | | | |i| | | |]; try discriminate H1. destruct i; try discriminate H1.
+    destruct c as [| | | | | | | |j| | | |]; try discriminate H2. destruct j; try discriminate H2. cbn [veqb] in *.
     eapply (list_eq_trans (fun p q => veqb p q)); eauto.
+  - rewrite veqb_num in * by reflexivity. destruct (numeric b) eqn:Nb; [|rewrite num_eq_nonnum_r in H1 by auto; discriminate].
+    rewrite veqb_num in H2 by auto. eapply num_eq_trans; eauto.
 Qed.
 
 (* reflexive on every fully evaluated value that contains no NaN in a position equality looks at *)
 Fixpoint nan_free (v:value) : Prop :=
   match v with
   | VFloat f => f_nan f = false
+  | VComplex r i => f_nan r = false /\ f_nan i = false
   | VThunk _ => False
   | VList l | VErr _ l => (fix all (l:list value) := match l with [] => True | x :: r => nan_free x /\ all r end) l
   | VDict d => (fix all (d:list (value*value)) := match d with [] => True | (k, x) :: r => (nan_free k /\ nan_free x) /\ all r end) d
@@ -301,9 +317,9 @@ Proof. induction 1 as [|x l Hx Hl IH]; intros HP; inversion HP; subst; construct
 
 Theorem veqb_refl : forall a, nan_free a -> veqb a a = true.
 Proof.
-  induction a as [n|f|bb|s|s|f| |t|l IH|sp l IH|d IH| |s|v IH|sp m f h l IH] using value_nest_ind; intros NF.
+  induction a as [n|f|bb|s|s|f| |t|l IH|sp l IH|d IH| |s|v IH|sp m f h l IH|cr ci] using value_nest_ind; intros NF.
   - rewrite veqb_num by reflexivity. apply int_eq_exact. reflexivity.
-  - rewrite veqb_num by reflexivity. unfold num_eq. apply nkey_eqb_refl. destruct f; try reflexivity; try discriminate NF. cbn [nkey]. destruct (pstrip m); reflexivity.
+  - rewrite veqb_num by reflexivity. rewrite num_eq_real by reflexivity. apply nkey_eqb_refl. destruct f; try reflexivity; try discriminate NF. cbn [nkey]. destruct (pstrip m); reflexivity.
   - apply Bool.eqb_reflx.
   - cbn [veqb]. apply codes_eq_true; reflexivity.
   - cbn [veqb]. apply codes_eq_true; reflexivity.
@@ -318,6 +334,9 @@ Proof.
   - cbn [veqb]. apply codes_eq_true; reflexivity.
   - cbn [veqb]. apply IH. exact NF.
   - cbn [veqb]. apply (list_eq_refl (fun p q => veqb p q)). apply (Forall_mp _ _ _ IH). apply all_Forall. exact NF.
+  - rewrite veqb_num by reflexivity. destruct NF as [N1 N2]. unfold num_eq. cbn [ckey fst snd]. apply andb_true_iff. split; apply nkey_eqb_refl.
+    + destruct cr; try reflexivity; try discriminate N1. cbn [nkey]. destruct (pstrip m); reflexivity.
+    + destruct ci; try reflexivity; try discriminate N2. cbn [nkey]. destruct (pstrip m); reflexivity.
 Qed.
 (* NaN equals nothing, itself included *)
 Theorem nan_irreflexive b : veqb (VFloat S754_nan) b = false /\ veqb b (VFloat S754_nan) = false.
@@ -325,7 +344,7 @@ Proof. split; [|rewrite veqb_sym]; rewrite veqb_num by reflexivity; reflexivity.
 
 (* values of different kinds differ (the two real kinds form one numeric class) *)
 Definition kclass (v:value) : nat :=
-  match v with VInt _ | VFloat _ => 1 | VBool _ => 2 | VStr _ => 3 | VList _ => 4 | VDict _ => 5 | VFun _ => 6 | VIO _ => 7 | VErr _ _ => 8 | VNil => 9 | VThunk _ => 10 | VBytes _ => 11 end%nat.
+  match v with VInt _ | VFloat _ | VComplex _ _ => 1 | VBool _ => 2 | VStr _ => 3 | VList _ => 4 | VDict _ => 5 | VFun _ => 6 | VIO _ => 7 | VErr _ _ => 8 | VNil => 9 | VThunk _ => 10 | VBytes _ => 11 end%nat.
 Theorem kinds_differ a b : veqb a b = true -> kclass a = kclass b.
 Proof.
   destruct (numeric a) eqn:Na.
